@@ -966,3 +966,368 @@ Section UntilProofs.
       intros j Hj. rewrite Sh. apply Hl. lia.
   Qed.
 End UntilProofs.
+
+(* ================================================================================================================
+   D2, operation sequence: the unrolled circuit, moment by moment, is the compositional semantics ops_nested.
+   The transformations the implementation pushes onto a nested operation before unrolling it are recorded as a list
+   of descriptors; `par` / `qf` are their accumulated inversion parity and qubit relabelling. *)
+Inductive tr := TQ (g : Z -> Z) | TI | TK (m : kmap) | TP (pm : pmap) | TS (path : list string) (b : list mkey).
+
+Definition apply_tr kK kM (t : tr) (o : op) : res op :=
+  match t with
+  | TQ g => Ok (t_qmap g o)
+  | TI => t_inv o
+  | TK m => Ok (if isnil (op_names o) then o else t_kmap kK kM m o)
+  | TP pm => Ok (t_resolve pm o)
+  | TS p b => Ok (t_rescope kK kM p b o)
+  end.
+Fixpoint apply_trs kK kM (ts : list tr) (o : op) : res op :=
+  match ts with [] => Ok o | t :: r => do o1 <- apply_tr kK kM t o; apply_trs kK kM r o1 end.
+Fixpoint par (ts : list tr) : bool := match ts with [] => false | TI :: r => negb (par r) | _ :: r => par r end.
+Fixpoint qf (ts : list tr) (q : Z) : Z := match ts with [] => q | TQ h :: r => qf r (h q) | _ :: r => qf r q end.
+
+Lemma apply_trs_app kK kM ts1 ts2 o :
+  apply_trs kK kM (ts1 ++ ts2) o = do o1 <- apply_trs kK kM ts1 o; apply_trs kK kM ts2 o1.
+Proof.
+  revert o. induction ts1 as [|t ts1 IH]; intro o; simpl; [reflexivity|].
+  destruct (apply_tr kK kM t o) as [o1| |]; simpl; [apply IH | reflexivity | reflexivity].
+Qed.
+Lemma par_app ts1 ts2 : par (ts1 ++ ts2) = xorb (par ts1) (par ts2).
+Proof.
+  induction ts1 as [|t ts1 IH]; simpl; [destruct (par ts2); reflexivity|].
+  destruct t; try exact IH. rewrite IH. destruct (par ts1), (par ts2); reflexivity.
+Qed.
+Lemma qf_app ts1 ts2 q : qf (ts1 ++ ts2) q = qf ts2 (qf ts1 q).
+Proof. revert q. induction ts1 as [|t ts1 IH]; intro q; simpl; [reflexivity|]. destruct t; apply IH. Qed.
+
+(* what a list of transformations does to a leaf / to the fields of a CircuitOperation *)
+Lemma apply_trs_leaf kK kM : forall ts l o', apply_trs kK kM ts (OLeaf l) = Ok o' ->
+  exists l', o' = OLeaf l' /\ uid l' = uid l /\ sgn l' = xorb (sgn l) (par ts) /\ lqs l' = map (qf ts) (lqs l).
+Proof.
+  induction ts as [|t ts IH]; intros l o' H; cbn [apply_trs] in H.
+  - inversion H; subst. exists l. repeat split; [destruct (sgn l); reflexivity | simpl; rewrite map_id; reflexivity].
+  - destruct t as [g| |m|pm|p b]; cbn [apply_tr bind] in H.
+    + cbn [t_qmap] in H. destruct (IH _ _ H) as [l' [E [Hu [Hs Hq]]]]. exists l'. simpl in *. rewrite map_map in Hq. auto.
+    + cbn [t_inv] in H. destruct (isnil (lmk l) && isnil (lcs l)); cbn [bind] in H; [|discriminate].
+      destruct (IH _ _ H) as [l' [E [Hu [Hs Hq]]]]. exists l'. simpl in *. repeat split; auto.
+      rewrite Hs. destruct (sgn l), (par ts); reflexivity.
+    + destruct (isnil (op_names (OLeaf l))); cbn [t_kmap] in H; destruct (IH _ _ H) as [l' [E [Hu [Hs Hq]]]]; exists l';
+        simpl in *; auto.
+    + cbn [t_resolve] in H. destruct (IH _ _ H) as [l' [E [Hu [Hs Hq]]]]. exists l'. simpl in *. auto.
+    + cbn [t_rescope] in H. destruct (IH _ _ H) as [l' [E [Hu [Hs Hq]]]]. exists l'. simpl in *. auto.
+Qed.
+
+Definition z_par (b : bool) (r : Z) : Z := if b then - r else r.
+
+Lemma apply_trs_sub kK kM : forall ts c f r o', apply_trs kK kM ts (OSub c f) = Ok o' -> reps f = RInt r ->
+  exists f', o' = OSub c f' /\ reps f' = RInt (z_par (par ts) r) /\ ids f' = ids f /\ use_ids f' = use_ids f /\
+             until f' = until f /\ forall q, In q (circ_qubits c) -> zlookup (qm f') q = qf ts (zlookup (qm f) q).
+Proof.
+  induction ts as [|t ts IH]; intros c f r o' H Hrep; cbn [apply_trs] in H.
+  - inversion H; subst. exists f. repeat split; auto.
+  - destruct t as [g| |m|pm0|p b]; cbn [apply_tr bind] in H.
+    + cbn [t_qmap] in H. destruct (IH _ _ r _ H Hrep) as [f' [E [Hr [Hi [Hu [Hun Hq]]]]]]. exists f'. simpl in *. repeat split; auto.
+      intros q Hin. rewrite (Hq q Hin). rewrite zlookup_compose by exact Hin. reflexivity.
+    + cbn [t_inv] in H. destruct (op_invertible (OSub c f)); cbn [bind] in H; [|discriminate].
+      assert (Hrep' : reps (set_reps f (rep_neg (reps f))) = RInt (- r)) by (rewrite Hrep; reflexivity).
+      destruct (IH _ _ _ _ H Hrep') as [f' [E [Hr [Hi [Hu [Hun Hq]]]]]]. exists f'. simpl in *. repeat split; auto.
+      rewrite Hr. unfold z_par. destruct (par ts); simpl; [rewrite Z.opp_involutive|]; reflexivity.
+    + destruct (isnil (op_names (OSub c f))); cbn [t_kmap] in H; destruct (IH _ _ r _ H Hrep) as [f' [E [Hr [Hi [Hu [Hun Hq]]]]]];
+        exists f'; simpl in *; repeat split; auto.
+    + cbn [t_resolve] in H.
+      assert (Hrep' : reps (set_reps (set_pm f (pmap_compose (str_nodup (circ_pnames c)) (pm f) pm0)) (rep_resolve pm0 (reps f))) = RInt r)
+        by (rewrite Hrep; reflexivity).
+      destruct (IH _ _ r _ H Hrep') as [f' [E [Hr [Hi [Hu [Hun Hq]]]]]]. exists f'. simpl in *. repeat split; auto.
+    + cbn [t_rescope] in H. destruct (IH _ _ r _ H Hrep) as [f' [E [Hr [Hi [Hu [Hun Hq]]]]]]. exists f'. simpl in *. repeat split; auto.
+Qed.
+
+Definition OpRel kK kM (inv : bool) (g : Z -> Z) (o o2 : op) : Prop :=
+  exists ts, apply_trs kK kM ts o = Ok o2 /\ par ts = inv /\ forall q, qf ts q = g q.
+Definition CircRel kK kM inv g (c c2 : circ) : Prop := Forall2 (Forall2 (OpRel kK kM inv g)) c c2.
+
+Lemma Forall2_refl' {A} (R : A -> A -> Prop) l : (forall x, R x x) -> Forall2 R l l.
+Proof. intro H. induction l; constructor; auto. Qed.
+Lemma Forall2_map_r {A B C} (R : A -> C -> Prop) (R' : A -> B -> Prop) (F : C -> B) l l' :
+  (forall x y, R x y -> R' x (F y)) -> Forall2 R l l' -> Forall2 R' l (map F l').
+Proof. intros H H2. induction H2; simpl; constructor; auto. Qed.
+Lemma Forall2_rev {A B} (R : A -> B -> Prop) l l' : Forall2 R l l' -> Forall2 R (rev l) (rev l').
+Proof.
+  induction 1 as [|a b l l' Hab H IH]; simpl; [constructor|]. apply Forall2_app; [exact IH | constructor; [exact Hab | constructor]].
+Qed.
+
+Lemma CircRel_refl kK kM c : CircRel kK kM false (fun q => q) c c.
+Proof.
+  apply Forall2_refl'. intro m. apply Forall2_refl'. intro o. exists []. repeat split.
+Qed.
+
+Lemma OpRel_step kK kM inv g o o1 t o2 :
+  OpRel kK kM inv g o o1 -> apply_tr kK kM t o1 = Ok o2 ->
+  OpRel kK kM (xorb inv (par [t])) (fun q => qf [t] (g q)) o o2.
+Proof.
+  intros [ts [Ha [Hp Hq]]] Ht. exists (ts ++ [t]). split; [|split].
+  - rewrite apply_trs_app, Ha. simpl. rewrite Ht. reflexivity.
+  - rewrite par_app, Hp. reflexivity.
+  - intro q. rewrite qf_app, Hq. reflexivity.
+Qed.
+
+Lemma CircRel_map kK kM inv g c c1 t F :
+  (forall o, apply_tr kK kM t o = Ok (F o)) -> CircRel kK kM inv g c c1 ->
+  CircRel kK kM (xorb inv (par [t])) (fun q => qf [t] (g q)) c (map (map F) c1).
+Proof.
+  intros HF H. unfold CircRel. apply (Forall2_map_r (Forall2 (OpRel kK kM inv g))); [|exact H].
+  intros m m1 Hm. apply (Forall2_map_r (OpRel kK kM inv g)); [|exact Hm].
+  intros o o1 Ho. apply (OpRel_step _ _ _ _ _ _ _ _ Ho). apply HF.
+Qed.
+
+Lemma xorb_false_r' b : xorb b false = b. Proof. destruct b; reflexivity. Qed.
+
+Lemma Forall2_mapM {A B C} (R : A -> B -> Prop) (R' : A -> C -> Prop) (F : B -> res C) :
+  (forall x y z, R x y -> F y = Ok z -> R' x z) ->
+  forall l0 l1 l2, Forall2 R l0 l1 -> mapM F l1 = Ok l2 -> Forall2 R' l0 l2.
+Proof.
+  intros HF l0 l1 l2 H. revert l2. induction H as [|x y l0 l1 Hxy H IH]; intros l2 Hm; simpl in Hm.
+  - inversion Hm. constructor.
+  - destruct (F y) as [z| |] eqn:Ez; simpl in Hm; try discriminate.
+    destruct (mapM F l1) as [zs| |] eqn:Ezs; simpl in Hm; try discriminate.
+    inversion Hm; subst. constructor; [apply (HF x y z Hxy Ez) | apply IH; reflexivity].
+Qed.
+
+Lemma CircRel_inv kK kM inv g c c1 c2 :
+  CircRel kK kM inv g c c1 -> circ_inv c1 = Ok c2 -> CircRel kK kM (negb inv) g (rev c) c2.
+Proof.
+  unfold circ_inv, CircRel. intros H Hi. apply Forall2_rev in H.
+  apply (Forall2_mapM (Forall2 (OpRel kK kM inv g)) (Forall2 (OpRel kK kM (negb inv) g)) (fun m => mapM t_inv m)) with (l1 := rev c1);
+    [|exact H|exact Hi].
+  intros m0 m1 m2 Hm Hmm.
+  apply (Forall2_mapM (OpRel kK kM inv g) (OpRel kK kM (negb inv) g) t_inv) with (l1 := m1); [|exact Hm|exact Hmm].
+  intros o o1 o2 Ho Hinv.
+  pose proof (OpRel_step kK kM inv g o o1 TI o2 Ho Hinv) as S. simpl in S.
+  destruct S as [ts [Ha [Hp Hq]]]. exists ts. split; [exact Ha|]. split; [rewrite Hp; destruct inv; reflexivity | exact Hq].
+Qed.
+
+Lemma CircRel_rescope kK kM inv g path : forall c1 c b, CircRel kK kM inv g c c1 ->
+  CircRel kK kM inv g c (circ_rescope kK kM path b c1).
+Proof.
+  induction c1 as [|m1 c1 IH]; intros c b H; inversion H as [|m0 mm c0 cc Hm Hc]; subst; cbn [circ_rescope]; constructor.
+  - apply (Forall2_map_r (OpRel kK kM inv g)); [|exact Hm]. intros o o1 Ho.
+    pose proof (OpRel_step kK kM inv g o o1 (TS path b) _ Ho eq_refl) as S. simpl in S.
+    destruct S as [ts [Ha [Hp Hq]]]. exists ts. split; [exact Ha|]. split; [rewrite Hp; apply xorb_false_r' | exact Hq].
+  - apply IH. exact Hc.
+Qed.
+
+Lemma Forall2_impl' {A B} (R R' : A -> B -> Prop) l l' : (forall x y, R x y -> R' x y) -> Forall2 R l l' -> Forall2 R' l l'.
+Proof. intros H H2. induction H2; constructor; auto. Qed.
+
+Lemma CircRel_weaken kK kM inv inv' g g' c c1 : inv = inv' -> (forall q, g q = g' q) ->
+  CircRel kK kM inv g c c1 -> CircRel kK kM inv' g' c c1.
+Proof.
+  intros -> Hg H. unfold CircRel in *. apply (Forall2_impl' (Forall2 (OpRel kK kM inv' g))); [|exact H]. intros m m1 Hm.
+  apply (Forall2_impl' (OpRel kK kM inv' g)); [|exact Hm]. intros o o1 [ts [Ha [Hp Hq]]]. exists ts. split; [exact Ha|]. split; [exact Hp|].
+  intro q. rewrite Hq. apply Hg.
+Qed.
+
+Lemma any_loop_rel kK kM c f a :
+  any_loop kK kM c f = Ok a ->
+  CircRel kK kM (rep_negative (reps f)) (zlookup (qm f)) (if rep_negative (reps f) then rev c else c) a.
+Proof.
+  unfold any_loop. intro H.
+  set (c1 := if isnil (qm f) then c else map (map (t_qmap (zlookup (qm f)))) c) in *.
+  assert (H1 : CircRel kK kM false (zlookup (qm f)) c c1).
+  { unfold c1. destruct (qm f) as [|p r] eqn:E; cbn [isnil].
+    - apply CircRel_refl.
+    - apply (CircRel_weaken kK kM (xorb false (par [TQ (zlookup (p :: r))])) false (fun q => qf [TQ (zlookup (p :: r))] q) _ c);
+        [reflexivity | reflexivity |].
+      apply (CircRel_map kK kM false (fun q => q) c c (TQ (zlookup (p :: r))) (t_qmap (zlookup (p :: r)))); [reflexivity | apply CircRel_refl]. }
+  destruct (if rep_negative (reps f) then circ_inv c1 else Ok c1) as [c2| |] eqn:E2; simpl in H; try discriminate.
+  assert (H2 : CircRel kK kM (rep_negative (reps f)) (zlookup (qm f)) (if rep_negative (reps f) then rev c else c) c2).
+  { destruct (rep_negative (reps f)); [apply (CircRel_inv _ _ _ _ _ _ _ H1 E2) | inversion E2; subst; exact H1]. }
+  set (c3 := if isnil (km f) then c2 else map (moment_kmap kK kM (km f)) c2) in *.
+  assert (H3 : CircRel kK kM (rep_negative (reps f)) (zlookup (qm f)) (if rep_negative (reps f) then rev c else c) c3).
+  { unfold c3. destruct (isnil (km f)); [exact H2|]. unfold moment_kmap.
+    eapply CircRel_weaken; [| |apply (CircRel_map kK kM _ _ _ _ (TK (km f)) _ (fun o => eq_refl) H2)];
+      [simpl; apply xorb_false_r' | reflexivity]. }
+  inversion H; subst a. destruct (isnil (pm f)); [exact H3|].
+  eapply CircRel_weaken; [| |apply (CircRel_map kK kM _ _ _ _ (TP (pm f)) _ (fun o => eq_refl) H3)];
+    [simpl; apply xorb_false_r' | reflexivity].
+Qed.
+
+Lemma single_loop_rel kK kM c f rid s :
+  single_loop kK kM c f rid = Ok s ->
+  CircRel kK kM (rep_negative (reps f)) (zlookup (qm f)) (if rep_negative (reps f) then rev c else c) s.
+Proof.
+  unfold single_loop. destruct (any_loop kK kM c f) as [a| |] eqn:Ea; simpl; try discriminate.
+  intro H. inversion H; subst s. apply CircRel_rescope. pose proof (any_loop_rel _ _ _ _ _ Ea) as Ha.
+  destruct rid; [apply CircRel_rescope; exact Ha | exact Ha].
+Qed.
+
+Lemma Forall2_len {A B} (R : A -> B -> Prop) l l' : Forall2 R l l' -> List.length l = List.length l'.
+Proof. induction 1; simpl; [reflexivity | f_equal; assumption]. Qed.
+
+Lemma repeat_app_concat {A} n (l : list A) : repeat_app n l = List.concat (repeat l n).
+Proof. induction n as [|n IH]; simpl; [reflexivity | rewrite IH; reflexivity]. Qed.
+
+(* the shallow mapped circuit is |r| loops, each related operation by operation to the (reversed) wrapped circuit *)
+Lemma shallow_rel kK kM n c f body r :
+  mapped_circuit kK kM (S n) false c f = Ok body -> reps f = RInt r -> r <> 0 ->
+  (forall l, ids f = Some l -> List.length l = Z.abs_nat r) ->
+  exists ss, body = List.concat ss /\ List.length ss = Z.abs_nat r /\
+             Forall (CircRel kK kM (r <? 0) (zlookup (qm f)) (if r <? 0 then rev c else c)) ss.
+Proof.
+  intros H Hr Hnz Hids. cbn [mapped_circuit] in H. rewrite Hr in H.
+  destruct (until f) as [u|]; [discriminate|].
+  destruct (r =? 0) eqn:E0; [apply Z.eqb_eq in E0; contradiction|].
+  assert (SL : forall rid s, single_loop kK kM c f rid = Ok s ->
+                             CircRel kK kM (r <? 0) (zlookup (qm f)) (if r <? 0 then rev c else c) s).
+  { intros rid s Hs. pose proof (single_loop_rel _ _ _ _ _ _ Hs) as R. rewrite Hr in R. exact R. }
+  assert (Plain : forall s, single_loop kK kM c f None = Ok s ->
+            exists ss, repeat_app (Z.abs_nat r) s = List.concat ss /\ List.length ss = Z.abs_nat r /\
+                       Forall (CircRel kK kM (r <? 0) (zlookup (qm f)) (if r <? 0 then rev c else c)) ss).
+  { intros s Hs. exists (repeat s (Z.abs_nat r)). split; [apply repeat_app_concat|]. split; [apply repeat_length|].
+    apply Forall_forall. intros x Hx. apply repeat_spec in Hx. subst x. apply (SL None s Hs). }
+  destruct (ids f) as [l|] eqn:Eids.
+  - destruct (use_ids f && circ_is_meas c).
+    + destruct (mapM (fun id => single_loop kK kM c f (Some id)) l) as [ls| |] eqn:El; simpl in H; try discriminate.
+      inversion H; subst body. apply mapM_ok in El. exists ls. split; [reflexivity|]. split.
+      * transitivity (List.length l); [symmetry; apply (Forall2_len _ _ _ El) | apply Hids; reflexivity].
+      * apply Forall_forall. intros s Hs. destruct (Forall2_in_r _ _ _ El s Hs) as [id [_ Hsl]]. apply (SL _ _ Hsl).
+    + destruct (single_loop kK kM c f None) as [s| |] eqn:Es; simpl in H; try discriminate.
+      inversion H; subst body. apply Plain. reflexivity.
+  - destruct (single_loop kK kM c f None) as [s| |] eqn:Es; simpl in H; try discriminate.
+    inversion H; subst body. apply Plain. reflexivity.
+Qed.
+
+(* ---- erasure commutes with concatenation and zipping ---- *)
+Lemma strip_app a b : strip_circ (a ++ b) = strip_circ a ++ strip_circ b.
+Proof. unfold strip_circ. apply map_app. Qed.
+Lemma strip_concat (l : list circ) : strip_circ (List.concat l) = List.concat (map strip_circ l).
+Proof. unfold strip_circ. apply concat_map. Qed.
+Lemma strip_zip2 : forall a b, strip_circ (zip2 a b) = zip2 (strip_circ a) (strip_circ b).
+Proof.
+  induction a as [|x a IH]; intros b; [reflexivity|]. destruct b as [|y b]; [reflexivity|].
+  simpl. rewrite map_app. f_equal. apply IH.
+Qed.
+Lemma strip_zip_all cs : strip_circ (zip_all cs) = zip_all (map strip_circ cs).
+Proof. induction cs as [|c cs IH]; [reflexivity|]. simpl. rewrite strip_zip2, IH. reflexivity. Qed.
+
+Lemma deep_part_spec kK kM n body ms :
+  deep_part kK kM n body = Ok ms ->
+  exists zs, Forall2 (fun m z => exists cs, Forall2 (fun o co => unroll_op kK kM n o = Ok co) m cs /\ z = zip_all cs) body zs /\
+             ms = List.concat zs.
+Proof.
+  unfold deep_part. destruct (mapM (fun m => do cs <- mapM (unroll_op kK kM n) m; Ok (zip_all cs)) body) as [zs| |] eqn:E;
+    simpl; try discriminate.
+  intro H. inversion H; subst ms. exists zs. split; [|reflexivity]. apply mapM_ok in E.
+  apply (Forall2_impl' (fun m z => (do cs <- mapM (unroll_op kK kM n) m; Ok (zip_all cs)) = Ok z)); [|exact E].
+  intros m z Hm. destruct (mapM (unroll_op kK kM n) m) as [cs| |] eqn:Ecs; simpl in Hm; try discriminate.
+  inversion Hm; subst z. exists cs. split; [apply mapM_ok; exact Ecs | reflexivity].
+Qed.
+
+(* the semantics depends on the relabelling only through the qubits the operation touches *)
+Lemma op_qubits_in_circ c m o q : In m c -> In o m -> In q (op_qubits o) -> In q (circ_qubits c).
+Proof. intros Hm Ho Hq. apply circ_qubits_in. apply body_attr_in. exists m, o. auto. Qed.
+
+Lemma ops_nested_ext : forall o inv g1 g2, (forall q, In q (op_qubits o) -> g1 q = g2 q) ->
+  ops_nested inv g1 o = ops_nested inv g2 o.
+Proof.
+  induction o as [l|c f IH] using op_ind'; intros inv g1 g2 H.
+  - simpl in *. rewrite (map_ext_in g1 g2 (lqs l) H). reflexivity.
+  - cbn [ops_nested]. destruct (reps f) as [r|b s]; [|reflexivity].
+    assert (E : map (fun m => zip_all (map (ops_nested (xorb inv (r <? 0)) (fun q => g1 (zlookup (qm f) q))) m)) c =
+                map (fun m => zip_all (map (ops_nested (xorb inv (r <? 0)) (fun q => g2 (zlookup (qm f) q))) m)) c).
+    { apply map_ext_in. intros m Hm. f_equal. apply map_ext_in. intros o Ho.
+      rewrite Forall_forall in IH. specialize (IH m Hm). rewrite Forall_forall in IH. apply (IH o Ho).
+      intros q Hq. apply H. rewrite op_qubits_sub. apply in_map. apply (op_qubits_in_circ c m o q Hm Ho Hq). }
+    rewrite E. reflexivity.
+Qed.
+
+Lemma z_par_neg b r : r <> 0 -> (z_par b r <? 0) = xorb b (r <? 0).
+Proof.
+  intro H. unfold z_par. destruct b; simpl.
+  - destruct (r <? 0) eqn:E; [apply Z.ltb_lt in E | apply Z.ltb_ge in E]; simpl; [apply Z.ltb_ge | apply Z.ltb_lt]; lia.
+  - destruct (r <? 0); reflexivity.
+Qed.
+
+(* one loop: unrolling the operations of a loop that is related to c0 operation by operation gives the zipped semantics *)
+Lemma loop_strip kK kM n inv g (S0 : op -> circ) (P : op -> Prop) :
+  (forall o o2 co, P o -> OpRel kK kM inv g o o2 -> unroll_op kK kM n o2 = Ok co -> strip_circ co = S0 o) ->
+  forall c0 s zs, Forall (Forall P) c0 -> CircRel kK kM inv g c0 s ->
+  Forall2 (fun m z => exists cs, Forall2 (fun o co => unroll_op kK kM n o = Ok co) m cs /\ z = zip_all cs) s zs ->
+  strip_circ (List.concat zs) = List.concat (map (fun m => zip_all (map S0 m)) c0).
+Proof.
+  intros HS c0 s zs HP Hrel. revert zs HP. induction Hrel as [|m0 m2 c0 s Hm Hrel IH]; intros zs HP Hz.
+  - inversion Hz. reflexivity.
+  - inversion Hz as [|m2' z s' zs' [cs [Hcs Ez]] Hz']; subst. inversion HP as [|m0' c0' HPm HPc]; subst.
+    simpl. rewrite strip_app. f_equal; [|apply IH; assumption].
+    rewrite strip_zip_all. f_equal.
+    clear -HS Hm Hcs HPm. revert cs Hcs HPm. induction Hm as [|o o2 m0 m2 Ho Hm IHm]; intros cs Hcs HPm.
+    + inversion Hcs. reflexivity.
+    + inversion Hcs as [|o2' co m2' cs' Hco Hcs']; subst. inversion HPm as [|o' m0' HPo HPm']; subst.
+      simpl. f_equal; [apply (HS o o2 co HPo Ho Hco) | apply IHm; assumption].
+Qed.
+
+Lemma concat_repeat_strip kK kM n inv g (S0 : op -> circ) (P : op -> Prop) c0 :
+  (forall o o2 co, P o -> OpRel kK kM inv g o o2 -> unroll_op kK kM n o2 = Ok co -> strip_circ co = S0 o) ->
+  Forall (Forall P) c0 ->
+  forall ss zs, Forall (CircRel kK kM inv g c0) ss ->
+  Forall2 (fun m z => exists cs, Forall2 (fun o co => unroll_op kK kM n o = Ok co) m cs /\ z = zip_all cs) (List.concat ss) zs ->
+  strip_circ (List.concat zs) = repeat_app (List.length ss) (List.concat (map (fun m => zip_all (map S0 m)) c0)).
+Proof.
+  intros HS HP. induction ss as [|s ss IH]; intros zs Hss Hz.
+  - simpl in Hz. inversion Hz. reflexivity.
+  - simpl in Hz. apply Forall2_app_inv_l in Hz. destruct Hz as [za [zb [Ha [Hb ->]]]].
+    inversion Hss as [|s' ss' Hs Hss']; subst. rewrite concat_app, strip_app. simpl. f_equal.
+    + apply (loop_strip kK kM n inv g S0 P HS c0 s za HP Hs Ha).
+    + apply IH; assumption.
+Qed.
+
+Lemma forall_rev_P {A} (P : A -> Prop) l : Forall P l -> Forall P (rev l).
+Proof. intro H. apply Forall_forall. intros x Hx. apply in_rev in Hx. rewrite Forall_forall in H. auto. Qed.
+
+(* main lemma: unrolling a transformed operation = semantics of the original operation under the accumulated
+   inversion parity and relabelling *)
+Lemma unroll_ops_main kK kM : forall n o ts o' ms, op_ok o = true ->
+  apply_trs kK kM ts o = Ok o' -> unroll_op kK kM n o' = Ok ms ->
+  strip_circ ms = ops_nested (par ts) (qf ts) o.
+Proof.
+  induction n as [|n IH]; intros o ts o' ms Hok Hap Hun; destruct o as [l|c f].
+  - destruct (apply_trs_leaf _ _ _ _ _ Hap) as [l' [-> [Hu [Hs Hq]]]]. simpl in Hun. inversion Hun; subst ms.
+    simpl. unfold erase_leaf. rewrite Hu, Hs, Hq. reflexivity.
+  - apply nz_sub in Hok. destruct Hok as [[r [Hr _]] _].
+    destruct (apply_trs_sub _ _ _ _ _ _ _ Hap Hr) as [f' [-> _]]. simpl in Hun. discriminate.
+  - destruct (apply_trs_leaf _ _ _ _ _ Hap) as [l' [-> [Hu [Hs Hq]]]]. simpl in Hun. inversion Hun; subst ms.
+    simpl. unfold erase_leaf. rewrite Hu, Hs, Hq. reflexivity.
+  - apply nz_sub in Hok. destruct Hok as [[r [Hr [Hr0 Hids]]] Hc].
+    destruct (apply_trs_sub _ _ _ _ _ _ _ Hap Hr) as [f' [-> [Hr' [Hi' [Hu' [Hun' Hq']]]]]]. cbn [unroll_op] in Hun.
+    destruct (mapped_deep_split _ _ _ _ _ _ Hun) as [body [Hsh Hdp]].
+    assert (Hr0' : z_par (par ts) r <> 0) by (unfold z_par; destruct (par ts); lia).
+    assert (Habs : Z.abs_nat (z_par (par ts) r) = Z.abs_nat r) by (unfold z_par; destruct (par ts); lia).
+    assert (Hids' : forall l, ids f' = Some l -> List.length l = Z.abs_nat (z_par (par ts) r)).
+    { intros l Hl. rewrite Habs. apply Hids. rewrite <- Hi'. exact Hl. }
+    destruct (shallow_rel _ _ _ _ _ _ _ Hsh Hr' Hr0' Hids') as [ss [-> [Hlen Hss]]].
+    destruct (deep_part_spec _ _ _ _ _ Hdp) as [zs [Hz ->]].
+    rewrite (z_par_neg _ _ Hr0) in Hss.
+    set (inv' := xorb (par ts) (r <? 0)) in *.
+    set (g' := fun q => qf ts (zlookup (qm f) q)).
+    set (c0 := if inv' then rev c else c) in *.
+    assert (HP : Forall (Forall (fun o => Nz o /\ exists m, In m c /\ In o m)) c0).
+    { assert (HPc : Forall (Forall (fun o => Nz o /\ exists m, In m c /\ In o m)) c).
+      { apply Forall_forall. intros m Hm. apply Forall_forall. intros o Ho. split; [apply (Hc m o Hm Ho) | exists m; auto]. }
+      unfold c0. destruct inv'; [apply forall_rev_P; exact HPc | exact HPc]. }
+    assert (HS : forall o o2 co, (Nz o /\ exists m, In m c /\ In o m) -> OpRel kK kM inv' (zlookup (qm f')) o o2 ->
+                 unroll_op kK kM n o2 = Ok co -> strip_circ co = ops_nested inv' g' o).
+    { intros o o2 co [Hnz [m [Hm Ho]]] [ts2 [Ha2 [Hp2 Hq2]]] Hu2.
+      rewrite (IH o ts2 o2 co Hnz Ha2 Hu2). rewrite Hp2. apply ops_nested_ext.
+      intros q Hq. rewrite Hq2. unfold g'. apply Hq'. apply (op_qubits_in_circ c m o q Hm Ho Hq). }
+    rewrite (concat_repeat_strip kK kM n inv' (zlookup (qm f')) (ops_nested inv' g')
+               (fun o => Nz o /\ exists m, In m c /\ In o m) c0 HS HP ss zs Hss Hz).
+    cbn [ops_nested]. rewrite Hr. fold inv'. fold g'. f_equal; [rewrite <- Habs; exact Hlen|]. f_equal.
+    unfold c0. destruct inv'; [rewrite map_rev|]; reflexivity.
+Qed.
+
+(* D2, operation sequence *)
+Theorem unroll_ops kK kM : forall n c f ms,
+  mapped_circuit kK kM n true c f = Ok ms -> op_ok (OSub c f) = true ->
+  strip_circ ms = ops_nested false (fun q => q) (OSub c f).
+Proof.
+  intros n c f ms H Hok. apply (unroll_ops_main kK kM n (OSub c f) [] (OSub c f) ms Hok eq_refl). exact H.
+Qed.
